@@ -103,7 +103,7 @@ def parse_clang(stderr):
     return out
 
 
-_GCC_CTX = re.compile(r"^(?P<file>[^\s:][^:\n]*):(?P<line>\d+):(?P<col>\d+):\s+(required|recursively required|in 'constexpr' expansion|required by substitution)")
+_GCC_CTX = re.compile(r"^(?P<file>[^\s:][^:\n]*):(?P<line>\d+):(?P<col>\d+):\s+(required|recursively required|in \S{1,3}constexpr\S{1,3} expansion|required by substitution)")
 
 
 def parse_gcc(stderr):
